@@ -19,7 +19,11 @@
 //!    -0 == +0), whichever representation (dense / sparse) the engine chose.
 //!
 //! parts: `program` (above), `alias` (a named collection called "_default" next to a cached default
-//! index; skipped when the engine refuses that name).
+//! index; skipped when the engine refuses that name), `rerank` (`search_with_hnsw_and_metric` on a
+//! just-built index with every extended metric — cosine, angular, geodesic, Jaccard, overlap, weighted
+//! Jaccard, Euclidean, Manhattan, composite — over one-hot / zero / prefix- and suffix-supported stored
+//! vectors and queries with negative tails and heads, judged with the cached-index oracle under the f64
+//! reference of the documented score formula of that metric).
 //!
 //! Failure classes carry their own signature (`stale-index:<slot>:after:<api>`,
 //! `cached:<api>:<what>`, `exact:<api>:<what>`, `readback:<api>:<what>`); three by-products of the
@@ -39,7 +43,7 @@ use std::sync::Arc;
 use std::time::Instant;
 use tensor_store::{HNSWDistanceMetric, ScalarValue, TensorValue};
 use vector_engine::{
-    DistanceMetric, EmbeddingInput, FilterCondition, FilterStrategy, FilterValue, FilteredSearchConfig, HNSWBuildOptions, HNSWConfig,
+    DistanceMetric, EmbeddingInput, ExtendedDistanceMetric, FilterCondition, GeometricConfig, FilterStrategy, FilterValue, FilteredSearchConfig, HNSWBuildOptions, HNSWConfig,
     HNSWIndex, HNSWStorageStrategy, SearchResult, VectorCollectionConfig, VectorEngine, VectorEngineConfig,
 };
 
@@ -202,6 +206,181 @@ fn ref_score(m: Metric, q: &[f32], v: &[f32]) -> (f64, f64) {
         Metric::Euc => {
             let s = 1.0 / (1.0 + d2.sqrt());
             (s, 1e-4 * s + 1e-6)
+        }
+    }
+}
+
+// ------------------------------------------------------------------------------------------------
+// extended metrics of the index-assisted re-rank path (search_with_hnsw_and_metric): f64 reference
+// of the documented raw value (tensor_store::DistanceMetric / SparseVector docs) and of the
+// documented conversion to a similarity (DistanceMetric::to_similarity)
+// ------------------------------------------------------------------------------------------------
+
+#[derive(Clone, Debug, PartialEq)]
+enum XM {
+    Cosine,
+    Angular,
+    Geodesic,
+    Jaccard,
+    Overlap,
+    WeightedJaccard,
+    Euclidean,
+    Manhattan,
+    /// (cosine, structural, magnitude) weights
+    Composite(f32, f32, f32),
+}
+
+impl XM {
+    fn name(&self) -> &'static str {
+        match self {
+            XM::Cosine => "cosine",
+            XM::Angular => "angular",
+            XM::Geodesic => "geodesic",
+            XM::Jaccard => "jaccard",
+            XM::Overlap => "overlap",
+            XM::WeightedJaccard => "weighted-jaccard",
+            XM::Euclidean => "euclidean",
+            XM::Manhattan => "manhattan",
+            XM::Composite(..) => "composite",
+        }
+    }
+    fn engine(&self) -> ExtendedDistanceMetric {
+        match self {
+            XM::Cosine => ExtendedDistanceMetric::Cosine,
+            XM::Angular => ExtendedDistanceMetric::Angular,
+            XM::Geodesic => ExtendedDistanceMetric::Geodesic,
+            XM::Jaccard => ExtendedDistanceMetric::Jaccard,
+            XM::Overlap => ExtendedDistanceMetric::Overlap,
+            XM::WeightedJaccard => ExtendedDistanceMetric::WeightedJaccard,
+            XM::Euclidean => ExtendedDistanceMetric::Euclidean,
+            XM::Manhattan => ExtendedDistanceMetric::Manhattan,
+            XM::Composite(c, s, m) => ExtendedDistanceMetric::Composite(GeometricConfig { cosine_weight: *c, structural_weight: *s, magnitude_weight: *m }),
+        }
+    }
+    /// (true similarity, tolerance). The engine computes the raw values in f64 and rounds to f32, so
+    /// 1e-4 relative + 1e-6 absolute is ample; only the angular metrics need more near cos = +-1,
+    /// where acos amplifies the f32 rounding of the cosine (d acos = d cos / sqrt(1 - cos^2)).
+    fn score(&self, q: &[f32], v: &[f32]) -> (f64, f64) {
+        debug_assert_eq!(q.len(), v.len());
+        let (mut dot, mut nq, mut nv, mut d2, mut l1) = (0f64, 0f64, 0f64, 0f64, 0f64);
+        let (mut inter, mut cq, mut cv) = (0usize, 0usize, 0usize);
+        let (mut min_sum, mut max_sum) = (0f64, 0f64);
+        for (a, b) in q.iter().zip(v) {
+            // "non-zero position" = a component that does not compare equal to 0 (-0.0 is zero)
+            let (za, zb) = (*a != 0.0, *b != 0.0);
+            cq += za as usize;
+            cv += zb as usize;
+            inter += (za && zb) as usize;
+            let (a, b) = (*a as f64, *b as f64);
+            dot += a * b;
+            nq += a * a;
+            nv += b * b;
+            d2 += (a - b) * (a - b);
+            l1 += (a - b).abs();
+            min_sum += a.abs().min(b.abs());
+            max_sum += a.abs().max(b.abs());
+        }
+        let cos = if nq == 0.0 || nv == 0.0 { 0.0 } else { (dot / (nq.sqrt() * nv.sqrt())).clamp(-1.0, 1.0) };
+        let jaccard = if cq == 0 && cv == 0 {
+            1.0
+        } else if cq == 0 || cv == 0 {
+            0.0
+        } else {
+            inter as f64 / (cq + cv - inter) as f64
+        };
+        let plain = |s: f64| (s, 1e-4 * s.abs() + 1e-6);
+        match self {
+            XM::Cosine => plain((cos + 1.0) / 2.0),
+            XM::Angular | XM::Geodesic => {
+                let a = cos.acos();
+                let delta = 3e-7;
+                let lo = (cos + delta).min(1.0).acos();
+                let hi = (cos - delta).max(-1.0).acos();
+                let tol_angle = (a - lo).max(hi - a) + 1e-6;
+                (1.0 - a / std::f64::consts::PI, tol_angle / std::f64::consts::PI + 2e-6)
+            }
+            XM::Jaccard => plain(jaccard),
+            XM::Overlap => plain(if cq == 0 || cv == 0 { 0.0 } else { inter as f64 / cq.min(cv) as f64 }),
+            XM::WeightedJaccard => plain(if max_sum == 0.0 { 1.0 } else { min_sum / max_sum }),
+            XM::Euclidean => plain(1.0 / (1.0 + d2.sqrt())),
+            XM::Manhattan => plain(1.0 / (1.0 + l1)),
+            XM::Composite(c, s, m) => {
+                let (c, s, m) = (*c as f64, *s as f64, *m as f64);
+                let total = c + s + m;
+                if total == 0.0 {
+                    (0.0, 1e-6)
+                } else {
+                    plain((c * (cos + 1.0) / 2.0 + s * jaccard + m / (1.0 + d2.sqrt())) / total)
+                }
+            }
+        }
+    }
+}
+
+/// which reference judges a result list
+#[derive(Clone, Debug)]
+enum Sc {
+    Basic(Metric),
+    Ext(XM),
+}
+impl From<Metric> for Sc {
+    fn from(m: Metric) -> Sc {
+        Sc::Basic(m)
+    }
+}
+impl From<XM> for Sc {
+    fn from(m: XM) -> Sc {
+        Sc::Ext(m)
+    }
+}
+impl Sc {
+    fn name(&self) -> &'static str {
+        match self {
+            Sc::Basic(m) => m.name(),
+            Sc::Ext(x) => x.name(),
+        }
+    }
+    fn score(&self, q: &[f32], v: &[f32]) -> (f64, f64) {
+        match self {
+            Sc::Basic(m) => ref_score(*m, q, v),
+            Sc::Ext(x) => x.score(q, v),
+        }
+    }
+}
+
+fn gen_xm(rng: &mut Rng) -> XM {
+    match rng.below(10) {
+        0 => XM::Cosine,
+        1 => XM::Angular,
+        2 => XM::Geodesic,
+        3 => XM::Jaccard,
+        4 => XM::Overlap,
+        5 => XM::WeightedJaccard,
+        6 => XM::Euclidean,
+        7 | 8 => XM::Manhattan,
+        _ => gen_composite(rng),
+    }
+}
+
+fn gen_composite(rng: &mut Rng) -> XM {
+    match rng.below(6) {
+        0 => {
+            let g = GeometricConfig::default();
+            XM::Composite(g.cosine_weight, g.structural_weight, g.magnitude_weight)
+        }
+        1 => {
+            let g = GeometricConfig::angular_heavy();
+            XM::Composite(g.cosine_weight, g.structural_weight, g.magnitude_weight)
+        }
+        2 => {
+            let g = GeometricConfig::structural_heavy();
+            XM::Composite(g.cosine_weight, g.structural_weight, g.magnitude_weight)
+        }
+        3 => XM::Composite(0.0, 0.0, 1.0),
+        4 => XM::Composite(0.0, 0.0, 0.0),
+        _ => {
+            let w = [0.0f32, 0.1, 0.25, 0.5, 1.0];
+            XM::Composite(*rng.pick(&w), *rng.pick(&w), *rng.pick(&w))
         }
     }
 }
@@ -474,9 +653,10 @@ fn judge_common(
     space: &Space,
     q: &[f32],
     k: usize,
-    metric: Metric,
+    metric: impl Into<Sc>,
     filter: Option<&F>,
 ) -> Result<Vec<(f64, f64)>, Bad> {
+    let metric: Sc = metric.into();
     if res.len() > k {
         return Err(Bad { what: "more-than-k".into(), detail: format!("{} results for k={}", res.len(), k) });
     }
@@ -495,14 +675,14 @@ fn judge_common(
                 detail: format!("returned key {:?} (score {}) is not a stored vector of dimension {}{} — {}", r.key, r.score, q.len(), if filter.is_some() { " matching the filter" } else { "" }, fmt_res(res)),
             });
         };
-        let (s, tol) = ref_score(metric, q, &e.v);
+        let (s, tol) = metric.score(q, &e.v);
         let got = r.score as f64;
         if !(got.is_finite()) || (got - s).abs() > tol {
             // does it match a vector this key held earlier?
             let mut what = "wrong-score";
             if let Some(e2) = space.data.get(&format!("{}{}", space.prefix, r.key)) {
                 if e2.v.len() == q.len() {
-                    let (s2, t2) = ref_score(metric, q, &e2.v);
+                    let (s2, t2) = metric.score(q, &e2.v);
                     if (got - s2).abs() <= t2 {
                         what = "key-prefix-stripped-twice";
                     }
@@ -511,7 +691,7 @@ fn judge_common(
             if let Some(olds) = space.old.get(&r.key).filter(|_| what == "wrong-score") {
                 for o in olds {
                     if o.len() == q.len() {
-                        let (so, to) = ref_score(metric, q, o);
+                        let (so, to) = metric.score(q, o);
                         if (got - so).abs() <= to {
                             what = "overwritten-vector-score";
                         }
@@ -777,6 +957,59 @@ fn judged_search(
         }
     }
     cx.violation(format!("exact:{}:{}", api, b.what), b.detail);
+}
+
+/// One `search_with_hnsw_and_metric` call on an index that was built just before (the data cannot
+/// have changed): every returned key is stored, reported with the documented similarity of the
+/// chosen metric for the current vector, no duplicates, best first, at most k.
+fn judged_rerank(cx: &mut Ctx, engine: &VectorEngine, index: &HNSWIndex, mapping: &[String], space: &Space, q: &[f32], k: usize, xm: &XM) {
+    let api = "search_with_hnsw_and_metric";
+    cx.r.count(&format!("search:{}", api), 1);
+    let n_same = space.data.values().filter(|e| e.v.len() == q.len()).count();
+    let em = xm.engine();
+    let out = catch_unwind(AssertUnwindSafe(|| engine.search_with_hnsw_and_metric(index, mapping, q, k, &em)));
+    cx.eval(n_same >= 2);
+    match out {
+        Err(p) => cx.violation(format!("rerank:{}:{}:panic", api, xm.name()), format!("{} panicked: {} (metric {:?}, query {:?})", api, first_line(&panic_msg(&p)), xm, short(q))),
+        Ok(Err(e)) => cx.violation(format!("rerank:{}:{}:error", api, xm.name()), format!("{} failed on a valid query: {}", api, e)),
+        Ok(Ok(res)) => {
+            cx.log(format!("{}[{:?}] k={} over {} nodes query={:?} -> {}", api, xm, k, mapping.len(), short(q), fmt_res(&res)));
+            cx.r.count("judged:rerank", 1);
+            cx.r.count(&format!("rerank:{}", xm.name()), 1);
+            cx.r.count("rerank:results", res.len() as u64);
+            // shapes observed among the judged results: one vector has components (negative ones in
+            // particular) beyond the other's last / before the other's first non-zero
+            let last_nz = |v: &[f32]| v.iter().rposition(|x| *x != 0.0);
+            let first_nz = |v: &[f32]| v.iter().position(|x| *x != 0.0);
+            let neg_after = |v: &[f32], i: Option<usize>| v.iter().enumerate().any(|(j, x)| *x < 0.0 && i.map_or(true, |i| j > i));
+            let neg_before = |v: &[f32], i: Option<usize>| v.iter().enumerate().any(|(j, x)| *x < 0.0 && i.map_or(true, |i| j < i));
+            for r in &res {
+                if let Some(e) = space.data.get(&r.key) {
+                    if e.v.len() != q.len() {
+                        continue;
+                    }
+                    if neg_after(q, last_nz(&e.v)) {
+                        cx.r.count("rerank:shape:query-negative-after-stored-last-nonzero", 1);
+                    }
+                    if neg_after(&e.v, last_nz(q)) {
+                        cx.r.count("rerank:shape:stored-negative-after-query-last-nonzero", 1);
+                    }
+                    if neg_before(q, first_nz(&e.v)) {
+                        cx.r.count("rerank:shape:query-negative-before-stored-first-nonzero", 1);
+                    }
+                    if neg_before(&e.v, first_nz(q)) {
+                        cx.r.count("rerank:shape:stored-negative-before-query-first-nonzero", 1);
+                    }
+                    if last_nz(&e.v).is_none() {
+                        cx.r.count("rerank:shape:stored-zero-vector", 1);
+                    }
+                }
+            }
+            if let Err(b) = judge_common(&res, space, q, k, xm.clone(), None) {
+                cx.violation(format!("rerank:{}:{}:{}", api, xm.name(), b.what), format!("index just built, re-rank metric {:?}; {}", xm, b.detail));
+            }
+        }
+    }
 }
 
 fn check_readback(cx: &mut Ctx, api: &'static str, key: &str, got: vector_engine::Result<Vec<f32>>, want: &[f32]) {
@@ -1155,6 +1388,11 @@ fn run_program(case_seed: u64, r: &mut Report, verbose: bool, scratch_base: &std
                                 }
                             }
                         }
+                        if rng.bool() {
+                            let xm = gen_xm(&mut rng);
+                            let k2 = pick_k(&mut rng, def.data.len());
+                            judged_rerank(&mut cx, &engine, &index, &mapping, &def, &q, k2, &xm);
+                        }
                     }
                 }
             }
@@ -1413,6 +1651,176 @@ fn run_program(case_seed: u64, r: &mut Report, verbose: bool, scratch_base: &std
 }
 
 // ------------------------------------------------------------------------------------------------
+// part `rerank`: index-assisted search re-ranked with every extended metric, over stored vectors
+// and queries whose non-zeros sit at one end (one-hot, zero, prefix-/suffix-supported, negative
+// tails and heads)
+// ------------------------------------------------------------------------------------------------
+
+fn gen_shape_vec(rng: &mut Rng, dim: usize) -> (Vec<f32>, &'static str) {
+    let val = |rng: &mut Rng| {
+        let x = rng.f64_in(0.1, 2.0) as f32;
+        if rng.bool() {
+            x
+        } else {
+            -x
+        }
+    };
+    match rng.weighted(&[18, 8, 20, 20, 12, 12, 10]) {
+        0 => {
+            let mut v = vec![0f32; dim];
+            let i = rng.below(dim);
+            v[i] = val(rng);
+            (v, "onehot")
+        }
+        1 => (vec![0f32; dim], "zero"),
+        2 => {
+            // non-zeros only among the first p components (early last non-zero)
+            let p = 1 + rng.below((dim / 2).max(1));
+            let mut v = vec![0f32; dim];
+            for x in v.iter_mut().take(p) {
+                if rng.chance(3, 4) {
+                    *x = val(rng);
+                }
+            }
+            v[rng.below(p)] = val(rng);
+            (v, "prefix-supported")
+        }
+        3 => {
+            // mirror image: non-zeros only among the last p components (late first non-zero)
+            let p = 1 + rng.below((dim / 2).max(1));
+            let mut v = vec![0f32; dim];
+            for x in v.iter_mut().skip(dim - p) {
+                if rng.chance(3, 4) {
+                    *x = val(rng);
+                }
+            }
+            v[dim - 1 - rng.below(p)] = val(rng);
+            (v, "suffix-supported")
+        }
+        4 => ((0..dim).map(|_| val(rng)).collect(), "dense"),
+        5 => ((0..dim).map(|_| rng.range(-2, 2) as f32).collect(), "smallint"),
+        _ => gen_vec(rng, dim, &[]),
+    }
+}
+
+fn gen_shape_query(rng: &mut Rng, dim: usize, pool: &[Vec<f32>]) -> (Vec<f32>, &'static str) {
+    let mag = |rng: &mut Rng| rng.f64_in(0.1, 2.0) as f32;
+    let (mut q, kind): (Vec<f32>, &'static str) = match rng.weighted(&[22, 22, 8, 8, 10, 10, 10, 10]) {
+        0 => {
+            // head zero or positive, the last t components negative
+            let t = 1 + rng.below(dim.max(2) - 1);
+            let mut v: Vec<f32> = (0..dim).map(|_| if rng.bool() { 0.0 } else { mag(rng) }).collect();
+            for x in v.iter_mut().skip(dim - t) {
+                *x = -mag(rng);
+            }
+            (v, "negative-tail")
+        }
+        1 => {
+            let t = 1 + rng.below(dim.max(2) - 1);
+            let mut v: Vec<f32> = (0..dim).map(|_| if rng.bool() { 0.0 } else { mag(rng) }).collect();
+            for x in v.iter_mut().take(t) {
+                *x = -mag(rng);
+            }
+            (v, "negative-head")
+        }
+        2 => ((0..dim).map(|_| -mag(rng)).collect(), "all-negative"),
+        3 => {
+            let mut v = vec![0f32; dim];
+            v[rng.below(dim)] = -mag(rng);
+            (v, "negative-onehot")
+        }
+        4 => ((0..dim).map(|_| if rng.bool() { mag(rng) } else { -mag(rng) }).collect(), "dense"),
+        5 if !pool.is_empty() => (rng.pick(pool).clone(), "stored-vector"),
+        6 | 5 => ((0..dim).map(|_| rng.range(-2, 2) as f32).collect(), "smallint"),
+        _ => {
+            // non-zeros only at one end (so that stored vectors have the longer tail / head)
+            let p = 1 + rng.below((dim / 2).max(1));
+            let mut v = vec![0f32; dim];
+            if rng.bool() {
+                for x in v.iter_mut().take(p) {
+                    *x = if rng.bool() { mag(rng) } else { -mag(rng) };
+                }
+            } else {
+                for x in v.iter_mut().skip(dim - p) {
+                    *x = if rng.bool() { mag(rng) } else { -mag(rng) };
+                }
+            }
+            (v, "one-end")
+        }
+    };
+    if !q.iter().any(|x| x.abs() >= 1e-3) {
+        let i = rng.below(dim);
+        q[i] = -1.0;
+    }
+    (q, kind)
+}
+
+fn run_rerank(case_seed: u64, r: &mut Report, verbose: bool) {
+    let mut rng = Rng::new(case_seed ^ 0x4E4A);
+    let mut cx = Ctx { r, case_seed, part: "rerank", trace: Vec::new(), verbose, step: 0 };
+    let dim = *rng.pick(&[2usize, 3, 4, 5, 8, 8, 9, 16, 33]);
+    let n = 2 + rng.below(23);
+    let cfg = {
+        let mut c = VectorEngineConfig::default();
+        c.sparse_threshold = *rng.pick(&[0.5f32, 0.5, 0.0, 0.3, 1.0]);
+        c
+    };
+    let engine = match VectorEngine::with_config(cfg) {
+        Ok(e) => e,
+        Err(e) => {
+            cx.r.inconclusive(&format!("engine construction failed: {}", e));
+            return;
+        }
+    };
+    let mut def = Space::new("emb:");
+    for i in 0..n {
+        let (v, kind) = gen_shape_vec(&mut rng, dim);
+        let key = format!("v{}", i);
+        let res = engine.store_embedding(&key, v.clone());
+        cx.log(format!("store_embedding({:?}, {} {:?}) -> {:?}", key, kind, short(&v), res.as_ref().err()));
+        if res.is_ok() {
+            cx.r.count(&format!("rerank:stored-kind:{}", kind), 1);
+            def.put(&key, v, Md::new(), "store_embedding");
+            observe_repr(&mut cx, &engine, &format!("emb:{}", key));
+        }
+    }
+    let storage = if rng.bool() { HNSWStorageStrategy::Dense } else { HNSWStorageStrategy::Auto };
+    let hm = *rng.pick(&[Metric::Cos, Metric::Cos, Metric::Euc, Metric::Dot]);
+    let built = engine.build_hnsw_index_with_options(HNSWBuildOptions { storage, hnsw_config: hnsw_cfg(&mut rng, hm) });
+    let (index, mapping) = match built {
+        Ok(x) => x,
+        Err(e) => {
+            cx.r.inconclusive(&format!("rerank: build_hnsw_index_with_options failed: {}", first_line(&e.to_string())));
+            return;
+        }
+    };
+    cx.log(format!("build_hnsw_index_with_options({:?}, {} index metric) -> {} nodes", storage, hm.name(), mapping.len()));
+    let mut step = 0u64;
+    for _ in 0..3 {
+        let (q, qkind) = gen_shape_query(&mut rng, dim, &pool_of(&def, dim));
+        cx.r.count(&format!("rerank:query-kind:{}", qkind), 1);
+        let mut metrics = vec![XM::Cosine, XM::Angular, XM::Geodesic, XM::Jaccard, XM::Overlap, XM::WeightedJaccard, XM::Euclidean, XM::Manhattan, gen_composite(&mut rng)];
+        rng.shuffle(&mut metrics);
+        for xm in &metrics {
+            cx.step = step;
+            step += 1;
+            let k = match rng.below(4) {
+                0 => 1,
+                1 => n + 2,
+                _ => 1 + rng.below(n),
+            };
+            judged_rerank(&mut cx, &engine, &index, &mapping, &def, &q, k, xm);
+        }
+    }
+    // the stored vectors still read back as written
+    for (k, e) in &def.data {
+        let got = engine.get_embedding(k);
+        check_readback(&mut cx, "get_embedding", k, got, &e.v);
+    }
+    cx.r.count("rerank_programs", 1);
+}
+
+// ------------------------------------------------------------------------------------------------
 // part `alias`: a named collection that happens to be called "_default"
 // ------------------------------------------------------------------------------------------------
 
@@ -1623,6 +2031,7 @@ fn main() {
             let mut one = Report::new();
             match rp["part"].as_str().unwrap_or("program") {
                 "alias" => guarded("alias", seed, &mut one, |r| run_alias(seed, r, attempt == 0)),
+                "rerank" => guarded("rerank", seed, &mut one, |r| run_rerank(seed, r, attempt == 0)),
                 _ => guarded("program", seed, &mut one, |r| run_program(seed, r, attempt == 0, &scratch_base)),
             }
             let hit = match &want {
@@ -1641,6 +2050,8 @@ fn main() {
         let seed: u64 = s.parse().expect("case-seed");
         if args.extra.get("part").map(|s| s.as_str()) == Some("alias") {
             guarded("alias", seed, &mut total, |r| run_alias(seed, r, verbose));
+        } else if args.extra.get("part").map(|s| s.as_str()) == Some("rerank") {
+            guarded("rerank", seed, &mut total, |r| run_rerank(seed, r, verbose));
         } else {
             guarded("program", seed, &mut total, |r| run_program(seed, r, verbose, &scratch_base));
         }
@@ -1651,6 +2062,9 @@ fn main() {
         total.merge(rep);
         let n = args.by_tier(60u64, 2_000u64);
         let rep = par_cases(args.threads, args.seed ^ 0xA1, n, args.budget(20, 120), |_i, s, r| guarded("alias", s, r, |r| run_alias(s, r, false)));
+        total.merge(rep);
+        let n = args.by_tier(1_500u64, 60_000u64);
+        let rep = par_cases(args.threads, args.seed ^ 0xB7, n, args.budget(25, 180), |_i, s, r| guarded("rerank", s, r, |r| run_rerank(s, r, false)));
         total.merge(rep);
     }
 
@@ -1663,7 +2077,8 @@ fn main() {
             "a filtered search is judged as the similarity search over the stored vectors whose metadata satisfies the filter (a vector lacking the field satisfies no comparison on it; Ne is not generated)".into(),
             "the cached-index oracle is applied only while the model saw no vector change since the build; an exact exhaustive answer also satisfies it, so the engine is never required to use the index".into(),
             "search_in_collection / search_filtered_in_collection are judged under the collection's configured metric; collection indexes are built by the program with that metric from vectors read through the engine".into(),
-            "quantized HNSW storage, IVF and search_with_hnsw_and_metric (rescaled similarity) are not judged".into(),
+            "quantized HNSW storage and IVF are not judged".into(),
+            "search_with_hnsw_and_metric (index just built) is judged with the cached-index oracle under the f64 reference of the chosen extended metric: raw value as documented on tensor_store::DistanceMetric / SparseVector (cosine, acos(cosine) for angular and geodesic, Jaccard and overlap on non-zero positions, weighted Jaccard, L2, L1, composite = weighted mean of (cos+1)/2, Jaccard and 1/(1+L2)) and the documented to_similarity ((cos+1)/2, 1 - angle/pi, 1/(1+distance), identity); tolerance 1e-4 relative + 1e-6, for the angular metrics the acos-amplified f32 rounding of the cosine (3e-7) instead".into(),
             "an index handed to cache_hnsw_index for a named collection maps node ids to storage keys (the convention of vector_engine's own test) and is withdrawn by the program when the collection's configuration is replaced (create_collection / load_index)".into(),
             "hostile key names (keys starting with \"emb:\", empty key, non-ASCII) are used in 1 of 8 programs".into(),
         ],
@@ -1685,6 +2100,22 @@ fn main() {
                 ("readback:get_embedding", 1_000),
                 ("index_builds_ok", 100),
                 ("collection_index_cached", 30),
+                ("rerank_programs", 100),
+                ("rerank:cosine", 200),
+                ("rerank:angular", 200),
+                ("rerank:geodesic", 200),
+                ("rerank:jaccard", 200),
+                ("rerank:overlap", 200),
+                ("rerank:weighted-jaccard", 200),
+                ("rerank:euclidean", 200),
+                ("rerank:manhattan", 200),
+                ("rerank:composite", 200),
+                ("rerank:results", 5_000),
+                ("rerank:shape:query-negative-after-stored-last-nonzero", 500),
+                ("rerank:shape:stored-negative-after-query-last-nonzero", 500),
+                ("rerank:shape:query-negative-before-stored-first-nonzero", 500),
+                ("rerank:shape:stored-negative-before-query-first-nonzero", 500),
+                ("rerank:shape:stored-zero-vector", 200),
                 ("distinct_nontrivial", 2_000),
             ]
         },
